@@ -461,6 +461,10 @@ class MergeRules(MergeBase):
             mk("s\n  .multiple = True\n  .optional = False\n{\n  b = x\n}\ns\n  .multiple = True\n{\n  b = w\n}\n", ["s { b = y }\ns.b = w\n"]),
             # multiple definitions, optional True drops None
             mk("d = None\n  .type = int\n  .multiple = True\n  .optional = True\n", ["d = 1\nd = None\nd = 2\nd = 1\n"]),
+            # untyped multiples: equal values spelt differently (bare / quoted, None / none) are equal instances
+            mk("tag = a\n  .multiple = True\nother = 0\n  .type = int\n", ['tag = "a"\ntag = b\n', 'other = 3\ntag = "b"\ntag = c\n']),
+            mk("tag = a\n  .multiple = True\n", ["tag = None\ntag = x\n", "tag = none\n"]),
+            mk("s {\n  tag = a b\n    .multiple = True\n}\n", ["s.tag = \"a\" b\ns.tag = 'c'\n", "s {\n  tag = c\n  tag = a 'b'\n}\n"]),
             # .optional = True drops None instances only: 0, False and the empty string are values
             mk("d = None\n  .type = int\n  .multiple = True\n  .optional = True\nb = None\n  .type = bool\n  .multiple = True\n  .optional = True\n"
                "t = None\n  .type = str\n  .multiple = True\n  .optional = True\n", ["d = 0\nd = 3\nb = False\nb = True\nt = \"\"\nt = x\n", "d = 0\nb = no\n"]),
